@@ -3,6 +3,7 @@ package main
 import (
 	"fmt"
 	"go/ast"
+	"go/constant"
 	"go/token"
 	"go/types"
 	"strings"
@@ -566,13 +567,34 @@ func (c *Ctx) ruleIdentityImmutable(rule string) {
 			}
 			info := lit.Info()
 			idParam := f.Info().ObjectOf(f.Type.Params.List[0].Names[0])
+			// the id stored is the id given: the parameter is never rewritten (trimmed, lower-cased, defaulted) on the way
+			rewritten := ""
+			ast.Inspect(f.Body, func(x ast.Node) bool {
+				switch st := x.(type) {
+				case *ast.AssignStmt:
+					for _, l := range st.Lhs {
+						if id, ok := ast.Unparen(l).(*ast.Ident); ok && f.Info().ObjectOf(id) == idParam {
+							rewritten = c.P.pos(st)
+						}
+					}
+				case *ast.UnaryExpr:
+					if st.Op == token.AND && rootIdent(f.Info(), st.X) == idParam {
+						rewritten = c.P.pos(st)
+					}
+				}
+				return true
+			})
+			c.Rep.check(rewritten == "", rule, f.Short(), "WithJobId rewrites the id it was given", c.P.pos(f.Body), "the id parameter is never assigned",
+				"WithJobId changes the id it was given before storing it (at "+rewritten+"): the job does not carry the ID chosen with WithJobId, and what the consumer of a persistent or distributed queue receives differs from what was submitted")
 			sr := &seqRule{c: c, rule: rule}
 			sr.visit = func(fr *Frame, n ast.Node) string {
 				if as, ok := n.(*ast.AssignStmt); ok {
 					for i, l := range as.Lhs {
 						if selField(info, l) == modPath+".jobConfigs.Id" {
-							if i < len(as.Rhs) && rootIdent(info, as.Rhs[i]) == idParam {
-								return "set-id"
+							if i < len(as.Rhs) {
+								if id, ok := ast.Unparen(as.Rhs[i]).(*ast.Ident); ok && info.ObjectOf(id) == idParam {
+									return "set-id"
+								}
 							}
 							return "set-other"
 						}
@@ -632,7 +654,12 @@ func (c *Ctx) ruleIdentityImmutable(rule string) {
 					n++
 					src := ast.Unparen(kvx.Value)
 					if call, ok := src.(*ast.CallExpr); ok && len(call.Args) == 1 {
-						if g := c.P.byObj[resolveCallee(info, call).Key]; g != nil && g.Obj.Name() == "generateGroupId" {
+						// a batch member's id is the configured id decorated by a helper: the helper must map distinct ids
+						// to distinct ids, the same way for every input (constant text around its argument)
+						if g := c.P.byObj[resolveCallee(info, call).Key]; g != nil && g.Lib && g.Body != nil {
+							shape, why := c.idDecoration(g)
+							c.Rep.check(shape != "", rule, g.Short(), "batch id is not a fixed decoration of the item's id", c.P.pos(g.Body), "returns constant text around its argument on every path",
+								g.Short()+" derives a batch member's job id from the configured id, but not as the same constant decoration of it on every path ("+why+"): some ids are rewritten differently from others, so the job does not carry the id chosen for it and two items can end up with one id")
 							src = ast.Unparen(call.Args[0])
 						}
 					}
@@ -954,4 +981,313 @@ func (c *Ctx) boundWorkerOf(f *Func) bool {
 		return false
 	}
 	return has(sig.Recv().Type(), 0)
+}
+
+// idDecoration: g(id string) string returns, on every path, the concatenation of constant strings and its parameter
+// (exactly once), the same on every path. Returns the shape ("g:" + «id») or "" and the reason.
+func (c *Ctx) idDecoration(g *Func) (string, string) {
+	info := g.Info()
+	var param types.Object
+	if g.Type.Params != nil && len(g.Type.Params.List) == 1 && len(g.Type.Params.List[0].Names) == 1 {
+		param = info.ObjectOf(g.Type.Params.List[0].Names[0])
+	}
+	if param == nil {
+		return "", "not a function of one named parameter"
+	}
+	var leaves func(e ast.Expr, depth int) ([]string, bool)
+	leaves = func(e ast.Expr, depth int) ([]string, bool) {
+		e = ast.Unparen(e)
+		if tv := info.Types[e]; tv.Value != nil && tv.Value.Kind() == constant.String {
+			return []string{constant.StringVal(tv.Value)}, true
+		}
+		switch x := e.(type) {
+		case *ast.Ident:
+			obj := info.ObjectOf(x)
+			if obj == param {
+				return []string{"\x00"}, true
+			}
+			if v, ok := obj.(*types.Var); ok && depth > 0 && !v.IsField() {
+				var only ast.Expr
+				cnt := 0
+				all, n := assignedOnlyFrom(g, v, func(r ast.Expr, idx, total int) bool { only = r; cnt++; return true })
+				if all && n == 1 && cnt == 1 {
+					return leaves(only, depth-1)
+				}
+			}
+		case *ast.BinaryExpr:
+			if x.Op == token.ADD {
+				l, ok1 := leaves(x.X, depth)
+				r, ok2 := leaves(x.Y, depth)
+				if ok1 && ok2 {
+					return append(l, r...), true
+				}
+			}
+		case *ast.CallExpr:
+			ce := resolveCallee(info, x)
+			if ce.Conv && len(x.Args) == 1 {
+				return leaves(x.Args[0], depth)
+			}
+			if ce.Key == "fmt.Sprintf" && len(x.Args) >= 1 {
+				tv := info.Types[x.Args[0]]
+				if tv.Value == nil || tv.Value.Kind() != constant.String {
+					return nil, false
+				}
+				format := constant.StringVal(tv.Value)
+				var out []string
+				arg := 1
+				for i := 0; i < len(format); i++ {
+					if format[i] != '%' {
+						out = append(out, string(format[i]))
+						continue
+					}
+					if i+1 >= len(format) {
+						return nil, false
+					}
+					i++
+					switch format[i] {
+					case '%':
+						out = append(out, "%")
+					case 's', 'v':
+						if arg >= len(x.Args) {
+							return nil, false
+						}
+						l, ok := leaves(x.Args[arg], depth)
+						if !ok {
+							return nil, false
+						}
+						out = append(out, l...)
+						arg++
+					default:
+						return nil, false
+					}
+				}
+				if arg != len(x.Args) {
+					return nil, false
+				}
+				return out, true
+			}
+		}
+		return nil, false
+	}
+	shape := ""
+	why := ""
+	nret := 0
+	ast.Inspect(g.Body, func(n ast.Node) bool {
+		if _, ok := n.(*ast.FuncLit); ok {
+			return false
+		}
+		ret, ok := n.(*ast.ReturnStmt)
+		if !ok {
+			return true
+		}
+		nret++
+		if len(ret.Results) != 1 {
+			why = "a return without exactly one result"
+			return true
+		}
+		l, ok := leaves(ret.Results[0], 2)
+		if !ok {
+			why = "`return " + types.ExprString(ret.Results[0]) + "` is not a concatenation of constant text and the parameter"
+			return true
+		}
+		sh := strings.Join(l, "")
+		if strings.Count(sh, "\x00") != 1 {
+			why = "`return " + types.ExprString(ret.Results[0]) + "` does not contain the parameter exactly once"
+			return true
+		}
+		sh = strings.Replace(sh, "\x00", "«id»", 1)
+		if shape != "" && shape != sh {
+			why = "paths return differently decorated ids (" + shape + " / " + sh + ")"
+			return true
+		}
+		shape = sh
+		return true
+	})
+	if why != "" || nret == 0 {
+		if why == "" {
+			why = "no return"
+		}
+		return "", why
+	}
+	return shape, ""
+}
+
+// ruleWorkerFuncSynchronous: the completion of a job (Finished, Close → acknowledge, Wait released, slot freed) runs
+// when the function stored as the worker function returns. That function is the library's wrapper around the user's
+// function, so "after the worker function has returned" holds only if the wrapper runs the user's function
+// synchronously: every function literal between the wrapper and the call of the user's function is handed to a callee
+// that calls it before returning (utils.WithSafe), never started with `go` or handed to a callee that runs it in a
+// goroutine, and the user's function is not referenced otherwise.
+func (c *Ctx) ruleWorkerFuncSynchronous(rule string) {
+	c.Rep.rule(rule, "E1 lexical + callee summary", "the wrappers run the user's worker function synchronously: it has returned when the wrapper returns", 3)
+	ctors := c.publicWorkerCtors()
+	if len(ctors) == 0 {
+		c.Rep.undecided(rule, "-", "no public worker constructor", "", "no exported New*Worker(fn, ...) found")
+	}
+	// does g call its parameter number idx synchronously on every use (directly, not under go / in a literal)?
+	callsParamSync := func(g *Func, idx int) bool {
+		var params []types.Object
+		if g.Type.Params != nil {
+			for _, fld := range g.Type.Params.List {
+				for _, nm := range fld.Names {
+					params = append(params, g.Info().ObjectOf(nm))
+				}
+			}
+		}
+		if idx >= len(params) || g.Body == nil {
+			return false
+		}
+		p := params[idx]
+		calls, others := 0, 0
+		var walk func(n ast.Node, async bool)
+		walk = func(n ast.Node, async bool) {
+			ast.Inspect(n, func(x ast.Node) bool {
+				switch y := x.(type) {
+				case *ast.GoStmt:
+					walk(y.Call, true)
+					return false
+				case *ast.FuncLit:
+					if x != n {
+						walk(y.Body, true) // when the literal runs is not known here
+						return false
+					}
+				case *ast.CallExpr:
+					if id, ok := ast.Unparen(y.Fun).(*ast.Ident); ok && g.Info().ObjectOf(id) == p {
+						if async {
+							others++
+						} else {
+							calls++
+						}
+						for _, a := range y.Args {
+							walk(a, async)
+						}
+						return false
+					}
+				case *ast.Ident:
+					if g.Info().ObjectOf(y) == p {
+						others++
+					}
+				}
+				return true
+			})
+		}
+		walk(g.Body, false)
+		return calls >= 1 && others == 0
+	}
+	for _, f := range ctors {
+		info := f.Info()
+		wf := info.ObjectOf(f.Type.Params.List[0].Names[0])
+		n := 0
+		ast.Inspect(f.Body, func(x ast.Node) bool {
+			call, ok := x.(*ast.CallExpr)
+			if !ok {
+				return true
+			}
+			id, ok := ast.Unparen(call.Fun).(*ast.Ident)
+			if !ok || info.ObjectOf(id) != wf {
+				return true
+			}
+			n++
+			chain := enclosingChain(f.Body, call)
+			why := ""
+			lits := 0
+			for i := len(chain) - 1; i > 0; i-- {
+				if _, isGo := chain[i].(*ast.GoStmt); isGo {
+					why = "it is called in a goroutine started at " + c.P.pos(chain[i])
+				}
+				lit, ok := chain[i].(*ast.FuncLit)
+				if !ok {
+					continue
+				}
+				lits++
+				pc, isArg := chain[i-1].(*ast.CallExpr)
+				if !isArg {
+					if _, isGo := chain[i-1].(*ast.GoStmt); isGo || i-1 == 0 {
+						continue
+					}
+					// a literal bound to a variable or stored: when it runs is not known
+					why = "the literal around it (at " + c.P.pos(lit) + ") is not handed directly to the function that runs it"
+					continue
+				}
+				idx := -1
+				for k, a := range pc.Args {
+					if ast.Unparen(a) == ast.Expr(lit) {
+						idx = k
+					}
+				}
+				if idx < 0 {
+					continue // the literal is the function being called: runs here
+				}
+				g := c.P.byObj[resolveCallee(info, pc).Key]
+				if g != nil && g.Lib && callsParamSync(g, idx) {
+					continue
+				}
+				if g != nil && g.Lib && !callsParamSync(g, idx) {
+					// the outermost literal is the wrapper itself, stored as the worker function by the constructor
+					if c.storesParamAsWorkerFunc(g, idx) {
+						continue
+					}
+					why = "the literal around it is handed to " + g.Short() + ", which does not simply call it before returning (it runs it in a goroutine or keeps it)"
+				}
+			}
+			c.Rep.check(why == "", rule, f.Short(), "user function not run synchronously by the wrapper", c.P.pos(call), "the wrapper returns only after the user's function returned",
+				"the wrapper that "+f.Short()+" installs as the worker function can return before the user's function has returned ("+why+"): the job is marked Finished/Closed, acknowledged to the adapter and its Wait released while its function is still running")
+			return true
+		})
+		if n == 0 {
+			c.Rep.undecided(rule, f.Short(), "no call of the user function", c.P.pos(f.Body), "the constructor never calls its function argument")
+		}
+	}
+}
+
+// storesParamAsWorkerFunc: g (or a constructor it forwards to) stores its parameter number idx in the worker-function
+// field.
+func (c *Ctx) storesParamAsWorkerFunc(g *Func, idx int) bool {
+	R := c.R
+	seen := map[*Func]bool{}
+	var visit func(g *Func, idx int, depth int) bool
+	visit = func(g *Func, idx int, depth int) bool {
+		if g == nil || g.Body == nil || seen[g] || depth < 0 {
+			return false
+		}
+		seen[g] = true
+		var params []types.Object
+		if g.Type.Params != nil {
+			for _, fld := range g.Type.Params.List {
+				for _, nm := range fld.Names {
+					params = append(params, g.Info().ObjectOf(nm))
+				}
+			}
+		}
+		if idx >= len(params) {
+			return false
+		}
+		p := params[idx]
+		found := false
+		ast.Inspect(g.Body, func(n ast.Node) bool {
+			switch x := n.(type) {
+			case *ast.KeyValueExpr:
+				if key, ok := x.Key.(*ast.Ident); ok && R.FWorkerFn != "" && strings.HasSuffix(R.FWorkerFn, "."+key.Name) && rootIdent(g.Info(), x.Value) == p {
+					found = true
+				}
+			case *ast.AssignStmt:
+				for i, l := range x.Lhs {
+					if selField(g.Info(), l) == R.FWorkerFn && i < len(x.Rhs) && rootIdent(g.Info(), x.Rhs[i]) == p {
+						found = true
+					}
+				}
+			case *ast.CallExpr:
+				for k, a := range x.Args {
+					if id, ok := ast.Unparen(a).(*ast.Ident); ok && g.Info().ObjectOf(id) == p {
+						if h := c.P.byObj[resolveCallee(g.Info(), x).Key]; h != nil && h.Lib && visit(h, k, depth-1) {
+							found = true
+						}
+					}
+				}
+			}
+			return true
+		})
+		return found
+	}
+	return visit(g, idx, 3)
 }
